@@ -71,6 +71,8 @@ int main(int argc, char** argv) {
       if (kind == "pressure_rising_beyond" && ratioPct != 85) args["fast_fall_ratio"] = hund(ratioPct);
     } else if (kind == "memory_above") {
       args[anon ? "threshold_anon" : "threshold"] = thrSpelling; args["duration"] = std::to_string(dur);
+      // "when both are specified, only threshold_anon is effective": a decoy total threshold that would decide otherwise
+      if (anon && r.chance(50)) args["threshold"] = r.pick(std::vector<std::string>{"1", "999999M", "0%", "100%"});
       args["meminfo_location"] = fs.base() + "/meminfo";
     } else if (kind == "memory_reclaim") args["duration"] = std::to_string(dur);
     else if (kind == "swap_free") { args["threshold_pct"] = std::to_string(pct); if (bps) args["swapout_bps_threshold"] = std::to_string(bps); }
